@@ -615,12 +615,10 @@ func (e *Eval) call(n *Node) Val {
 			}
 			except := map[string][]string{}
 			for _, a := range args {
-				if a.Op == "call" && a.Args[0].Op == "ident" && a.Args[0].Name == "all" && len(a.Args) == 2 && a.Args[1].Op == "sel" && a.Args[1].Args[0].Op == "ident" && e.pkg != nil {
-					if tn, ok := e.pkg.Members[a.Args[1].Args[0].Name].(*ssa.Type); ok {
-						if _, f := findField(tn.Type(), a.Args[1].Name, 0); f != nil {
-							except[x.fieldKey(tn.Type(), f)] = append(except[x.fieldKey(tn.Type(), f)], "*")
-							continue
-						}
+				if a.Op == "call" && a.Args[0].Op == "ident" && a.Args[0].Name == "all" && len(a.Args) == 2 && e.pkg != nil {
+					if k, ok := x.allFieldKey(e.pkg, a.Args[1]); ok {
+						except[k] = append(except[k], "*")
+						continue
 					}
 				}
 				if a.Op == "call" && a.Args[0].Op == "ident" && a.Args[0].Name == "mapof" && len(a.Args) == 2 {
